@@ -170,6 +170,45 @@ static void do_builder(void) {
     /* the root's child count is not reachable through an accessor */
     printf(" rootnc=%d", s->elements[0].num_children);
     put_finds(s, h_tok[2]);
+    /* pure add_column sequences: write a file with this schema (no rows) and read it back; the reader must report
+     * the same count, names, physical types, type lengths, repetitions and levels as the builder */
+    if (strcmp(h_tok[3], "-") && s->num_leaves > 0) {
+        char* mem = NULL; size_t msz = 0;
+        FILE* f = open_memstream(&mem, &msz);
+        carquet_writer_options_t wo; carquet_writer_options_init(&wo);
+        carquet_error_t e1 = CARQUET_ERROR_INIT;
+        carquet_writer_t* w = f ? carquet_writer_create_file(f, s, &wo, &e1) : NULL;
+        carquet_status_t cst = w ? carquet_writer_close(w) : CARQUET_ERROR_INTERNAL;
+        if (f) fclose(f);
+        if (!w || cst != CARQUET_OK) printf(" RT=write-failed:%d:%d", (int)e1.code, (int)cst);
+        else {
+            uint8_t* exact = malloc(msz ? msz : 1);
+            memcpy(exact, mem, msz);
+            carquet_error_t e2 = CARQUET_ERROR_INIT;
+            carquet_reader_t* r = carquet_reader_open_buffer(exact, msz, NULL, &e2);
+            if (!r) printf(" RT=open-failed:%d", (int)e2.code);
+            else {
+                const carquet_schema_t* rs = carquet_reader_schema(r);
+                int bad = -2;
+                if (rs->num_leaves != s->num_leaves || rs->num_elements != s->num_elements) bad = -1;
+                for (int32_t i = 0; bad == -2 && i < s->num_leaves; i++) {
+                    const parquet_schema_element_t* a = &s->elements[s->leaf_indices[i]];
+                    const parquet_schema_element_t* b = &rs->elements[rs->leaf_indices[i]];
+                    if (s->leaf_indices[i] != rs->leaf_indices[i] || strcmp(a->name, b->name) || a->type != b->type ||
+                        a->type_length != b->type_length || a->repetition_type != b->repetition_type ||
+                        s->max_def_levels[i] != rs->max_def_levels[i] || s->max_rep_levels[i] != rs->max_rep_levels[i] ||
+                        a->max_def_level != b->max_def_level || a->max_rep_level != b->max_rep_level) bad = i;
+                }
+                if (bad == -2) fputs(" RT=same", stdout);
+                else if (bad == -1) printf(" RT=counts:%d/%d:%d/%d", s->num_leaves, rs->num_leaves, s->num_elements, rs->num_elements);
+                else printf(" RT=column:%d:builder-def/rep=%d/%d:reader-def/rep=%d/%d", bad, (int)s->max_def_levels[bad],
+                            (int)s->max_rep_levels[bad], (int)rs->max_def_levels[bad], (int)rs->max_rep_levels[bad]);
+                carquet_reader_close(r);
+            }
+            free(exact);
+        }
+        free(mem);
+    }
     putchar('\n');
     carquet_schema_free(s);
 }
